@@ -273,3 +273,100 @@ Example C10_witness_do_while_condition_raises :
                   (runs_env [([1], TDone); ([2], TDone); ([3], TDone)])))
   = [Next 1; Next 2; Err 9].
 Proof. vm_compute. reflexivity. Qed.
+
+(* ==== WHEN the next source is subscribed (run level), catch(handler) closed form ==== *)
+From RxVerif Require Import Ops.MergeOrderFacts Ops.SequentialRun.
+
+(* catch(handler) in the sequential environment (source 0 = the caught source, source 1 = the
+   observable the handler returns, further sources are ignored): the elements of source 0;
+   its completion is passed on; on its error e the handler is called with e -- if it raises
+   e' that error is passed on, otherwise the handler's source is mirrored to its end
+   (elements, then its completion or its error); a source that never terminates leaves the
+   output open *)
+Theorem C10_catch_handler_closed_form : forall A (h : Z -> res unit) (srcs : list (list A * term)),
+  emitted (fst (run (x_catch_handler h) (seq_env_from 0 srcs))) = catch_handler_spec h srcs.
+Proof. exact @catch_handler_closed_form. Qed.
+Print Assumptions C10_catch_handler_closed_form.
+
+Example C10_witness_catch_handler :
+  emitted (fst (run (x_catch_handler (fun e => if Z.eqb e 7 then Ok tt else Raise (e + 1)))
+                  (seq_env_from 0 [([1; 2], TErr 7); ([3], TErr 9); ([4], TDone)])))
+  = [Next 1; Next 2; Next 3; Err 9]
+  /\ emitted (fst (run (x_catch_handler (fun e => if Z.eqb e 7 then Ok tt else Raise (e + 1)))
+                  (seq_env_from 0 [([1], TErr 5); ([3], TDone)])))
+  = [Next 1; Err 6].
+Proof. vm_compute. split; reflexivity. Qed.
+
+(* GENERIC, for ANY sequential machine (concat, catch, on_error_resume_next, retry, repeat,
+   while_do, do_while, catch(handler): the instances are [*_sequential]) and EVERY input
+   sequence: a subscription observed at trace position q+1 (i.e. after subscribe()) is
+   opened in the step of input q, which is a TERMINAL notification of the one source that is
+   subscribed at that moment (the runner is not stopped and its live list is exactly [k]) --
+   so never before the current source terminated, and never triggered by a notification of
+   a source that is not subscribed *)
+Theorem C10_sequential_subscribes_at_live_termination :
+  forall A B (m : machine A B), sequential m -> forall (ins : list (Z * inp A)) q j,
+  In (S q, OSub j) (fst (run m ins)) ->
+  exists now k e, nth_error ins q = Some (now, ISrc k e) /\ is_terminal e = true /\
+    r_stopped (snd (run m (firstn q ins))) = false /\ r_live (snd (run m (firstn q ins))) = [k].
+Proof. exact @sequential_subscribes_at_live_termination. Qed.
+Print Assumptions C10_sequential_subscribes_at_live_termination.
+
+(* EXACT instants for concat / catch / on_error_resume_next, EVERY input sequence: source j is
+   subscribed at trace position q+1 IFF j = k+1 < n, input q is the completion (catch: the
+   error; on_error_resume_next: any termination) of source k, and k is the subscribed source
+   just before input q.  Left to right: not before and by nothing else; right to left: always
+   in that very step. *)
+Theorem C10_concat_subscribes_next_iff : forall A n (ins : list (Z * inp A)) q j,
+  In (S q, OSub j) (fst (run (x_concat n) ins)) <->
+  exists now k, j = S k /\ (S k < n)%nat /\ nth_error ins q = Some (now, ISrc k Done)
+                /\ r_live (snd (run (x_concat n) (firstn q ins))) = [k].
+Proof. exact @concat_subscribes_next_iff. Qed.
+Print Assumptions C10_concat_subscribes_next_iff.
+Theorem C10_catch_subscribes_next_iff : forall A n (ins : list (Z * inp A)) q j,
+  In (S q, OSub j) (fst (run (x_catch n) ins)) <->
+  exists now k e, j = S k /\ (S k < n)%nat /\ nth_error ins q = Some (now, ISrc k (Err e))
+                  /\ r_live (snd (run (x_catch n) (firstn q ins))) = [k].
+Proof. exact @catch_subscribes_next_iff. Qed.
+Print Assumptions C10_catch_subscribes_next_iff.
+Theorem C10_oern_subscribes_next_iff : forall A n (ins : list (Z * inp A)) q j,
+  In (S q, OSub j) (fst (run (x_oern n) ins)) <->
+  exists now k e, j = S k /\ (S k < n)%nat /\ nth_error ins q = Some (now, ISrc k e) /\ is_terminal e = true
+                  /\ r_live (snd (run (x_oern n) (firstn q ins))) = [k].
+Proof. exact @oern_subscribes_next_iff. Qed.
+Print Assumptions C10_oern_subscribes_next_iff.
+
+(* ... and over EVERY run the subscriptions are to sources 0, 1, .., m-1 (m <= n) in this
+   order: no source is skipped, none is subscribed twice *)
+Theorem C10_concat_subscribes_in_order : forall A n (ins : list (Z * inp A)),
+  exists mm, (mm <= n)%nat /\ sub_ids (map snd (fst (run (x_concat n) ins))) = seq 0 mm.
+Proof. exact @concat_subscribes_in_order. Qed.
+Print Assumptions C10_concat_subscribes_in_order.
+Theorem C10_catch_subscribes_in_order : forall A n (ins : list (Z * inp A)),
+  exists mm, (mm <= n)%nat /\ sub_ids (map snd (fst (run (x_catch n) ins))) = seq 0 mm.
+Proof. exact @catch_subscribes_in_order. Qed.
+Print Assumptions C10_catch_subscribes_in_order.
+Theorem C10_oern_subscribes_in_order : forall A n (ins : list (Z * inp A)),
+  exists mm, (mm <= n)%nat /\ sub_ids (map snd (fst (run (x_oern n) ins))) = seq 0 mm.
+Proof. exact @oern_subscribes_in_order. Qed.
+Print Assumptions C10_oern_subscribes_in_order.
+
+(* the right-hand sides are satisfiable on a non-conforming interleaving: source 1 speaks
+   before it is subscribed (dropped), source 0 completes at input 2, so OSub 1 sits at trace
+   position 3; source 0 is the live one just before *)
+Example C10_witness_subscribes_next :
+  let ins := [(0, ISrc 1%nat (Next 9)); (0, ISrc 0%nat (Next 1)); (0, ISrc 0%nat Done);
+              (0, ISrc 1%nat (Next 2)); (0, ISrc 1%nat Done)] in
+  nth_error ins 2 = Some (0, ISrc 0%nat Done)
+  /\ r_live (snd (run (x_concat 2) (firstn 2 ins))) = [0%nat]
+  /\ fst (run (x_concat 2) ins)
+     = [(0%nat, OSub 0%nat); (2%nat, OEmit (Next 1)); (3%nat, OSub 1%nat); (3%nat, OUnsub 0%nat);
+        (4%nat, OEmit (Next 2)); (5%nat, OUnsub 1%nat); (5%nat, OEmit Done)]
+  /\ sub_ids (map snd (fst (run (x_concat 2) ins))) = seq 0 2.
+Proof. vm_compute. repeat split; reflexivity. Qed.
+(* the generic theorem on retry: the resubscription to source 0 at position 2 = the error at input 1 *)
+Example C10_witness_sequential_instance :
+  sequential (x_retry (A:=Z) (Some 2%nat))
+  /\ fst (run (x_retry (Some 2%nat)) [(0, ISrc 0%nat (Next 1)); (0, ISrc 0%nat (Err 7))])
+     = [(0%nat, OSub 0%nat); (1%nat, OEmit (Next 1)); (2%nat, OSub 0%nat); (2%nat, OUnsub 0%nat)].
+Proof. split; [apply retry_sequential|vm_compute; reflexivity]. Qed.
